@@ -20,6 +20,7 @@ type DBIterator struct {
 
 	lowerBound []byte
 	upperBound []byte
+	prefix     []byte // utils.Options.Prefix: only keys under it are yielded
 	isAsc      bool
 	// seekOutOfRange marks Seek calls that intentionally invalidated the
 	// iterator due to bounds checks. While set, Next must not advance from a
@@ -92,6 +93,7 @@ func (db *DB) NewIterator(opt *utils.Options) utils.Iterator {
 		keyOnly:    keyOnly,
 		lowerBound: opt.LowerBound,
 		upperBound: opt.UpperBound,
+		prefix:     opt.Prefix,
 		isAsc:      opt.IsAsc,
 	}
 	itr.item.vlog = db.vlog
@@ -231,6 +233,12 @@ func (iter *DBIterator) populate() {
 		// Bookkeeping the engine stores in the user keyspace (the value-log discard
 		// statistics) is not part of what a client wrote.
 		if isBookkeepingKey(userKey) {
+			iter.iitr.Next()
+			continue
+		}
+
+		// Options.Prefix restricts the scan to the keys under it, as in the transaction iterator.
+		if len(iter.prefix) > 0 && !bytes.HasPrefix(userKey, iter.prefix) {
 			iter.iitr.Next()
 			continue
 		}
